@@ -216,6 +216,7 @@ type Path struct {
 	locks    map[string]*lockState
 	ghost    map[string]Value
 	allocCap int64
+	maxDepth int // zz.MaxDepth: a call depth beyond it is reported as unbounded recursion
 	eraser      bool
 	eraserCells map[string]*cellState
 	maxAlloc *Term
